@@ -10,7 +10,7 @@ RULE = ("message sets are built from generated entries with the independent enco
         "chunks, two wrappers, wrapper+plain, wrapper+plain+wrapper, plain below the requested offset + wrapper, two depth-2 nestings, two "
         "layouts of the known class) is truncated at EVERY byte position 0..len, for 1-2 requested offsets each (thorough: every offset from "
         "first-1 to last+1); (b) random layouts: 1-6 batches of 1-4 messages over {plain, gzip, snappy} with offset gaps, offsets up to "
-        "2^62, null/empty/binary keys and values (4%: 0.3-1.5 KiB values), snappy chunk sizes 1..4096 with and without copy elements, "
+        "2^62, null/empty/binary keys and values (6% of the layouts hold 0.3-20 KiB values), snappy chunk sizes 1..4096 with and without copy elements, "
         "requested offset at a batch start, inside the first batch (inner offsets below it), in a gap, below the log or at its last message, "
         "empty sets; cut at a sampled position (entry boundaries +-1, inside the 12-byte entry header and the fixed fields, uniform) or not "
         "at all; in a third of the cases 40% of the layouts put a plain message at or above the requested offset in front of a complete "
@@ -69,7 +69,7 @@ def known_defect_prediction(entries, req):
 
 
 def descends_two_levels(entries):
-    """does decoding of this set enter a wrapper inside a wrapper (the situation of the freed-buffer finding)"""
+    """does decoding of this set enter a wrapper inside a wrapper (depth-2 nesting; formerly the freed-buffer finding)"""
     for e in entries:
         if e[0] == "wrap":
             return has_wrapper(e[3])
@@ -129,7 +129,7 @@ def rand_kv(rng, big=False):
     elif r < 0.2:
         v = b""
     elif big and r < 0.3:
-        v = rand_bytes(rng, 300, 1500)
+        v = rand_bytes(rng, 300, 1500) if rng.random() < 0.7 else bytes(rng.getrandbits(8) for _ in range(rng.randint(4000, 20480)))
     elif r < 0.5:
         v = rand_bytes(rng, 1, 6, b"ab")
     else:
@@ -415,11 +415,11 @@ def gen(rng, tier):
     for i in range(0, len(jobs), 108):
         cases.append(scripted_case(rng, jobs[i:i + 108], per_fetch=9))
     # (b) random layouts
-    for _ in range(620 if quick else 9000):
+    for _ in range(1100 if quick else 9000):
         jobs = []
         known_ok = rng.random() < 0.35         # layouts of the known class are concentrated in a third of the cases
         for _ in range(rng.randint(10, 40)):
-            big = rng.random() < 0.04
+            big = rng.random() < 0.06
             kind, entries, req = rand_layout(rng, big=big, known_ok=known_ok)
             chunk = None if rng.random() < 0.5 else rng.choice([1, 2, 7, 16, 31, 64, 200]) if not big else rng.choice([64, 500, 4096])
             copies = rng.random() < 0.4
@@ -427,7 +427,7 @@ def gen(rng, tier):
             jobs.append(admit(rng, (kind, entries, req, sample_cut(rng, lens), chunk, copies)))
         cases.append(scripted_case(rng, jobs))
     # (c) the reference broker's own replies
-    for _ in range(120 if quick else 1500):
+    for _ in range(200 if quick else 1500):
         cases.append(served_case(rng))
     return cases
 
